@@ -343,36 +343,48 @@ def genResps (env : Env) : List (Nat × B × Option Ty) → Schemas → Except E
         | .error e => .error e
         | .ok rr => .ok ({ code := code, description := description, schema := none } :: rr.1, rr.2)
 
+/-- the parameter block of buildOperation: parameters from the request metadata, then the route's
+    path parameters the metadata did not declare -/
+def opParams (env : Env) (md : Option Meta) (pathParams : List (Param IR)) (st : Schemas) : List (Param IR) × Schemas :=
+  match md with
+  | some m =>
+    let r := mdParams env m.params [] [] st
+    (r.1 ++ pathParams.filter (fun p => !r.2.1.contains p.name), r.2.2)
+  | none => (pathParams, st)
+
+/-- the request body block of buildOperation -/
+def opBody (env : Env) (md : Option Meta) (st : Schemas) : Option IR × Schemas :=
+  match md with
+  | some m =>
+    if m.hasBody then
+      let r := genProjected env m st
+      (some r.1, r.2)
+    else (none, st)
+  | none => (none, st)
+
+def defaultResps : List (Resp IR) := [{ code := s "200", description := s "OK", schema := none }]
+
+def opIdOf (op : OpIn) : B :=
+  if op.hasDoc && op.opID ≠ [] then op.opID else generateOperationID op.method op.path
+
 /-- `buildOperation`: `seenOps` = the operation ids used so far -/
 def buildOperation (env : Env) (op : OpIn) (st : Schemas) (seenOps : List B) :
     Except Err (Operation IR × Schemas × List B) :=
-  let opID := if op.hasDoc && op.opID ≠ [] then op.opID else generateOperationID op.method op.path
+  let opID := opIdOf op
   if seenOps.contains opID then .error .dupOp
   else
     let seenOps' := opID :: seenOps
     if !op.hasDoc then
       .ok ({ opId := opID, summary := [], description := [], params := extractPathParams op.path, body := none,
-             resps := [{ code := s "200", description := s "OK", schema := none }] }, st, seenOps')
+             resps := defaultResps }, st, seenOps')
     else
-      let pathParams := extractPathParams op.path
       let md := op.req.bind (introspect env)
-      let pr : List (Param IR) × Schemas :=
-        match md with
-        | some m =>
-          let r := mdParams env m.params [] [] st
-          (r.1 ++ pathParams.filter (fun p => !r.2.1.contains p.name), r.2.2)
-        | none => (pathParams, st)
-      let br : Option IR × Schemas :=
-        match md with
-        | some m => if m.hasBody then
-            let r := genProjected env m pr.2
-            (some r.1, r.2)
-          else (none, pr.2)
-        | none => (none, pr.2)
+      let pr := opParams env md (extractPathParams op.path) st
+      let br := opBody env md pr.2
       match genResps env (sortStatuses op.resps) br.2 with
       | .error e => .error e
       | .ok rr =>
-        let resps := if rr.1.isEmpty then [{ code := s "200", description := s "OK", schema := none }] else rr.1
+        let resps := if rr.1.isEmpty then defaultResps else rr.1
         .ok ({ opId := opID, summary := op.summary, description := op.description, params := pr.1,
                body := br.1, resps := resps }, rr.2, seenOps')
 
